@@ -3,7 +3,7 @@ from pyvc.verify import Post, Case, Equiv, NativeFacts
 from contracts import common, C02
 
 PROPERTY = 'C01'
-REF_MODULES = ['ref_t', 'h_path', 'ref_auto', 'ref_extra', 'ref_core']
+REF_MODULES = ['ref_t', 'h_path', 'ref_auto', 'ref_extra', 'ref_core', 'ref_registry']
 config = C02.config
 
 
@@ -36,6 +36,10 @@ def contracts():
     ], func='core.TargetRegistry._register_default_types'))
     from contracts import extra
     cs += common.shared(extra, ['core.Path.from_text'])
+    # "the access registered for each intermediate value's type": the handler lookup and the registration that feeds it (contracts of C13)
+    from contracts import C13
+    cs += common.shared(C13, ['core.TargetRegistry.get_handler', 'core.TargetRegistry.get_type_map', 'core.TargetRegistry._get_closest_type',
+                              'core.TargetRegistry.register', 'core.TargetRegistry.__init__', 'core.TargetRegistry._register_default_types'])
     return cs
 
 
@@ -52,8 +56,23 @@ NATIVE = {
                                          lambda: [(t, str(i)) for t in ("[1, 2, 3]", "(1, 2)", "[]", "'abc'") for i in
                                                   list(range(-8, 8)) + ["'1'", "'-2'", "None", "'x'", "1.5"]], mode='handler2'),
 }
+def bounded_registered_access(tier, seed):
+    """registration histories (including lookups made BEFORE a registration, which fill the handler memo) against the nearest-registered-type
+    oracle: the stand-in of C13, run here because C01's 'access registered for the value's type' rests on it"""
+    import json, os
+    from contracts import C13
+    r = C13.bounded_registration_orders(tier, seed)
+    # user-registration defects already recorded as open findings of C13 (their carve-out keys) are C13's to report: C01 quantifies over the
+    # default-registered target types, so only failures outside those recorded keys are reported here
+    kf = json.load(open(os.path.join(os.path.dirname(os.path.dirname(os.path.abspath(__file__))), 'known_findings.json')))['findings']
+    c13_keys = {k['bounded_key'] for k in kf if k['property'] == 'C13' and k['status'] == 'open' and k.get('bounded_key')}
+    return dict(r, name='(C13) ' + r['name'], failures=[f for f in r['failures'] if f.get('key') not in c13_keys],
+                bound=r.get('bound', '') + '; failures under the open C13 finding keys %s are reported by C13, not here' % sorted(c13_keys))
+
+
+BOUNDED = [bounded_registered_access]
 ASSUMPTIONS = C02.ASSUMPTIONS + [
-    'the get handler chosen for a value is TargetRegistry.get_handler(\'get\', value) (its nearest-type contract is C13); the default table is read natively from the initialised registry',
+    'the get handler chosen for a value is TargetRegistry.get_handler(\'get\', value): get_handler / register / _get_closest_type are under contract here too (shared with C13); tree construction is bounded (C13 stand-in run here); the default table is read natively from the initialised registry',
     'copy.copy of the PathAccessError in glom() preserves class, exc, path and part_idx (C04)',
 ]
 TRUSTED = C02.TRUSTED
